@@ -116,7 +116,7 @@ func vhOpts() MergeOptions {
 // VH_C17_merge_pair: union, newest incarnation, no regression, monotone epoch
 // and member version-vector entries, changed flag, idempotence, commutativity.
 func VH_C17_merge_pair() {
-	vhStatusAlt = vrtChoose(5)
+	vhStatusAlt = vrtChoose(vrtParam("statusalts", 5))
 	k := vrtParam("ids", 2)
 	// mode 0: membership dimension (epochs/timestamps/protocol concrete and
 	// equal, no clock-skew option); mode 1: epoch dimension (symbolic epochs,
